@@ -8,10 +8,225 @@ namespace Osmium.Pbf
 open Osmium.Wire Osmium.Osm Osmium.PbfMsg
 open Osmium.PbfSpec (Choices)
 
+/-- the cases of `decode_way`'s `switch` for different (tag, wire type) commute: 1 / 8 / 9 / 10 set id / refs / lats /
+    lons, 2 / 3 / 4 set keys / vals / (info, user), and `decode_info` reads the info slot only -/
+theorem spec_way_commutes (p : Params) (r : ROpts) : CommutesOn (wayStep p r) (fun _ => True) := by
+  intro s f g _ _ hk
+  obtain ⟨t1, w1, v1, p1⟩ := f
+  obtain ⟨t2, w2, v2, p2⟩ := g
+  simp only [key, ne_eq, Prod.mk.injEq, not_and] at hk
+  unfold wayStep metaStep
+  dsimp only
+  split <;> split <;> (try (simp_all; done)) <;> (try simp only [Option.bind_some])
+  all_goals (repeat' split)
+  all_goals (try (simp_all; done))
+  all_goals (first
+    | (rcases h : decodeInfo p s.info p2 with _ | x <;> simp_all <;> done)
+    | (rcases h : decodeInfo p s.info p1 with _ | x <;> simp_all <;> done))
+
+/-- the canonical field list of the spec's Way message -/
+def specWayFields (ch : Choices) (table : List Bytes) (hist : Bool) (m : Meta) (ns : List NodeRef) : List Field :=
+  [PbfSpec.fInt 1 m.id] ++ PbfSpec.metaFields ch table hist m ++
+    PbfSpec.fPacked ch.omitDefaults 8 ((PbfSpec.delta 0 (ns.map (·.ref))).map zigzag64) ++
+    (if ns.any (fun n => n.location != Location.undefined) then
+      PbfSpec.fPacked false 9
+        ((PbfSpec.delta 0 (ns.map fun n => PbfSpec.coord ch.granularity ch.latOffset n.location.y)).map zigzag64) ++
+      PbfSpec.fPacked false 10
+        ((PbfSpec.delta 0 (ns.map fun n => PbfSpec.coord ch.granularity ch.lonOffset n.location.x)).map zigzag64)
+     else [])
+
+theorem spec_way_msg_eq (ch : Choices) (table : List Bytes) (hist : Bool) (m : Meta) (ns : List NodeRef) :
+    PbfSpec.wayMsg ch table hist m ns = PbfSpec.msg ch PbfSpec.kWay (specWayFields ch table hist m ns) := rfl
+
+theorem spec_way_fPacked_shape (od : Bool) (tag : Nat) (vs : List Nat) :
+    ∀ f ∈ PbfSpec.fPacked od tag vs, f.wt = .lengthDelimited ∧ f.tag = tag ∧ f.val = 0 := by
+  intro f hf
+  unfold PbfSpec.fPacked at hf
+  split at hf <;> simp only [List.mem_nil_iff, List.mem_singleton] at hf
+  subst hf
+  simp [PbfSpec.fBytes]
+
+/-- shape of the canonical fields: the id, or a length-delimited field with a small tag -/
+theorem spec_way_fields_shape (ch : Choices) (table : List Bytes) (hist : Bool) (m : Meta) (ns : List NodeRef) :
+    ∀ f ∈ specWayFields ch table hist m ns,
+      f = PbfSpec.fInt 1 m.id ∨ (f.wt = .lengthDelimited ∧ 0 < f.tag ∧ f.tag ≤ 10 ∧ f.val = 0) := by
+  intro f hf
+  unfold specWayFields at hf
+  simp only [List.mem_append, List.mem_singleton] at hf
+  rcases hf with ((hf | hf) | hf) | hf
+  · exact Or.inl hf
+  · obtain ⟨hw, ht, hv⟩ := spec_metaFields_shape ch table hist m f hf
+    exact Or.inr ⟨hw, by omega, by omega, hv⟩
+  · obtain ⟨hw, ht, hv⟩ := spec_way_fPacked_shape _ _ _ f hf
+    exact Or.inr ⟨hw, by omega, by omega, hv⟩
+  · split at hf
+    · rcases List.mem_append.mp hf with hf | hf
+      · obtain ⟨hw, ht, hv⟩ := spec_way_fPacked_shape _ _ _ f hf
+        exact Or.inr ⟨hw, by omega, by omega, hv⟩
+      · obtain ⟨hw, ht, hv⟩ := spec_way_fPacked_shape _ _ _ f hf
+        exact Or.inr ⟨hw, by omega, by omega, hv⟩
+    · simp at hf
+
+theorem spec_way_fields_wf (ch : Choices) (table : List Bytes) (hist : Bool) (m : Meta) (ns : List NodeRef)
+    (hlen : (PbfSpec.wayMsg ch table hist m ns).length < 2 ^ 32) :
+    ∀ f ∈ specWayFields ch table hist m ns, f.WF := by
+  intro f hf
+  rcases spec_way_fields_shape ch table hist m ns f hf with h | ⟨hw, ht0, ht, hv⟩
+  · subst h
+    exact wf_varint 1 _ (by decide) (by decide) (u64_lt _)
+  · have hp := payload_le_msg ch PbfSpec.kWay _ f hf hw
+    rw [← spec_way_msg_eq] at hp
+    obtain ⟨tag, wt, val, payload⟩ := f
+    simp only at hw ht0 ht hv hp
+    subst hw hv
+    refine ⟨ht0, by simp only [Nat.reducePow]; omega, by simp only; omega, rfl, ?_⟩
+    exact Nat.lt_of_le_of_lt hp hlen
+
+/-! ### DELTA arrays of the spec through `DeltaDecode` -/
+
+theorem spec_way_decGo_delta : ∀ (xs : List Int) (p : Int), (∀ x ∈ xs, IdOk x) →
+    Delta.decGo p (PbfSpec.delta p xs) = xs
+  | [], _, _ => rfl
+  | x :: xs, p, h => by
+    have hx := h x List.mem_cons_self
+    have e : p + (x - p) = x := by omega
+    simp only [PbfSpec.delta, Delta.decGo]
+    rw [e, Delta.swrap64_id x hx.1 hx.2, spec_way_decGo_delta xs x (fun y hy => h y (List.mem_cons_of_mem _ hy))]
+
+theorem spec_way_dec_delta (xs : List Int) (h : ∀ x ∈ xs, IdOk x) : Delta.dec (PbfSpec.delta 0 xs) = xs :=
+  spec_way_decGo_delta xs 0 h
+
+theorem spec_way_delta_lt : ∀ (xs : List Int) (p : Int), DeltaRep p xs →
+    ∀ v ∈ (PbfSpec.delta p xs).map zigzag64, v < 2 ^ 64
+  | [], _, _ => by simp [PbfSpec.delta]
+  | x :: xs, p, h => by
+    intro v hv
+    simp only [PbfSpec.delta, List.map_cons, List.mem_cons] at hv
+    rcases hv with rfl | hv
+    · exact zigzag_lt _ h.1.1 h.1.2
+    · exact spec_way_delta_lt xs x h.2 v hv
+
+/-- values within ±2^62 form a delta chain within int64 -/
+theorem spec_way_deltaRep_of_bound : ∀ (xs : List Int) (p : Int), (-(2:Int) ^ 62 < p ∧ p < (2:Int) ^ 62) →
+    (∀ x ∈ xs, -(2:Int) ^ 62 < x ∧ x < (2:Int) ^ 62) → DeltaRep p xs
+  | [], _, _, _ => trivial
+  | x :: xs, p, hp, h => by
+    have hx := h x List.mem_cons_self
+    refine ⟨?_, spec_way_deltaRep_of_bound xs x hx (fun y hy => h y (List.mem_cons_of_mem _ hy))⟩
+    unfold IdOk
+    simp only [Int.reducePow] at *
+    omega
+
+/-- a delta-coded sint64 array as the spec packs it and the reader unpacks it -/
+theorem spec_way_packed_delta (xs : List Int) (hd : DeltaRep 0 xs) (h : ∀ x ∈ xs, IdOk x) :
+    unpack (pack ((PbfSpec.delta 0 xs).map zigzag64)) = some ((PbfSpec.delta 0 xs).map zigzag64) ∧
+    Delta.dec (((PbfSpec.delta 0 xs).map zigzag64).map unzigzag64) = xs := by
+  refine ⟨unpack_pack _ (spec_way_delta_lt xs 0 hd), ?_⟩
+  rw [List.map_map]
+  have : (unzigzag64 ∘ zigzag64) = id := by funext x; simp [unzigzag_zigzag]
+  rw [this, List.map_id, spec_way_dec_delta xs h]
+
+/-- the packed arrays after the meta fields through `wayStep` -/
+theorem spec_way_tail (p : Params) (r : ROpts) (s : ObjAcc) (od : Bool) (A B C : List Nat) (withLoc : Bool)
+    (ha : s.a = []) (hb : s.b = []) (hc : s.c = []) :
+    decodeMsg (wayStep p r) s (PbfSpec.fPacked od 8 A ++
+        (if withLoc then PbfSpec.fPacked false 9 B ++ PbfSpec.fPacked false 10 C else [])) =
+      some { s with a := pack A, b := if withLoc then pack B else [], c := if withLoc then pack C else [] } := by
+  have pk : ∀ (l : List Nat), l.isEmpty = true → pack l = [] := fun l h => by
+    have : l = [] := List.isEmpty_iff.mp h
+    subst this; rfl
+  cases withLoc <;> cases od <;> cases h1 : A.isEmpty <;>
+    simp [PbfSpec.fPacked, PbfSpec.fBytes, h1, decodeMsg, wayStep, pk, ha, hb, hc] <;> (try (cases s; simp_all))
+
 theorem spec_way (ch : Choices) (hch : ChoicesOk ch) (table : List Bytes) (hist : Bool) (m : Meta) (ns : List NodeRef)
     (hrep : ObjRep ch (.way m ns)) (htab : ∀ s ∈ PbfSpec.stringsOf (.way m ns), TableOk table s)
     (hlen : (PbfSpec.wayMsg ch table hist m ns).length < 2 ^ 32) :
     withFields (PbfSpec.wayMsg ch table hist m ns) (decodeWay (specParams ch table) {}) = some (.way m ns) := by
-  sorry
+  obtain ⟨⟨hmd, hid, hts, hstr⟩, hn, hdr, hloc⟩ := hrep
+  have hwf := spec_way_fields_wf ch table hist m ns hlen
+  unfold withFields
+  rw [spec_way_msg_eq, readFields_msg ch _ _ hwf (hch.extrasWF PbfSpec.kWay)]
+  simp only
+  unfold decodeWay
+  rw [decodeMsg_arrange' (wayStep (specParams ch table) {}) wayKnown (wayStep_unknown _ _)
+    (spec_way_commutes _ _) ch PbfSpec.kWay _ _ (hch.extrasUnknown PbfSpec.kWay)]
+  have hstep : decodeMsg (wayStep (specParams ch table) {}) { id := m.id } (PbfSpec.metaFields ch table hist m) =
+      decodeMsg (metaStep (specParams ch table) {}) { id := m.id } (PbfSpec.metaFields ch table hist m) :=
+    decodeMsg_congr_step _ _ _ _ (fun f hf s => wayStep_ld_meta _ _ s f (by
+      obtain ⟨hw, ht, _⟩ := spec_metaFields_shape ch table hist m f hf
+      exact ⟨hw, ht⟩))
+  have hmeta := spec_meta ch hch table hist m (specParams ch table) rfl rfl hmd hts
+    (htab m.user (by simp [PbfSpec.stringsOf])) { id := m.id } ⟨rfl, rfl, rfl, rfl⟩
+  have h0 : decodeMsg (wayStep (specParams ch table) {}) {} [PbfSpec.fInt 1 m.id] = some { id := m.id } := by
+    simp [decodeMsg, wayStep, spec_fInt, fVarint, toInt64_u64 m.id hid]
+  unfold specWayFields
+  rw [List.append_assoc, decodeMsg_append, decodeMsg_append, h0, Option.bind_some, hstep, hmeta, Option.bind_some,
+    spec_way_tail _ _ _ _ _ _ _ _ rfl rfl rfl]
+  have ir : ∀ x ∈ ns.map (·.ref), IdOk x := fun x hx => by
+    obtain ⟨n, hn', rfl⟩ := List.mem_map.mp hx; exact (hn n hn').1
+  obtain ⟨hur, edr⟩ := spec_way_packed_delta _ hdr ir
+  have u0 : unpack ([] : Bytes) = some [] := rfl
+  have htags : ∀ s : ObjAcc, s.keys = pack (m.tags.map fun t => PbfSpec.idx table t.key) →
+      s.vals = pack (m.tags.map fun t => PbfSpec.idx table t.value) →
+      finishTags (specParams ch table) s = some m.tags := fun s hk hv =>
+    spec_finishTags table _ rfl m s hk hv (fun t ht =>
+      ⟨htab _ (by simp only [PbfSpec.stringsOf, List.mem_cons, List.mem_flatMap]; exact Or.inr ⟨t, ht, by simp⟩),
+       htab _ (by simp only [PbfSpec.stringsOf, List.mem_cons, List.mem_flatMap]; exact Or.inr ⟨t, ht, by simp⟩)⟩)
+  cases hw : ns.any (fun n => n.location != Location.undefined)
+  · simp only [Bool.false_eq_true, ↓reduceIte, bind, Option.bind, hur, u0, List.isEmpty_nil, edr,
+      pure, mkMeta, infoOf]
+    rw [htags _ rfl rfl]
+    simp only [List.map_map]
+    have hall : ∀ n ∈ ns, n.location = Location.undefined := by
+      intro n hn'
+      have := (List.any_eq_false.mp hw) n hn'
+      simpa using this
+    have hl : List.map ((fun i => ({ ref := i } : NodeRef)) ∘ fun x => x.ref) ns = ns := by
+      conv => rhs; rw [← List.map_id ns]
+      apply List.map_congr_left
+      intro n hn'
+      have := hall n hn'
+      obtain ⟨r, l⟩ := n
+      simp only at this
+      subst this
+      rfl
+    rw [hl]
+  · obtain ⟨n0, hn0, hn0u⟩ := List.any_eq_true.mp hw
+    have hrepl := hloc ⟨n0, hn0, by simpa using hn0u⟩
+    have blat : ∀ x ∈ ns.map (fun n => PbfSpec.coord ch.granularity ch.latOffset n.location.y),
+        -(2:Int) ^ 62 < x ∧ x < (2:Int) ^ 62 := fun x hx => by
+      obtain ⟨n, hn', rfl⟩ := List.mem_map.mp hx
+      exact spec_coord_bound _ _ _ hch.gran.1 hch.latOff (hn n hn').2.2
+    have blon : ∀ x ∈ ns.map (fun n => PbfSpec.coord ch.granularity ch.lonOffset n.location.x),
+        -(2:Int) ^ 62 < x ∧ x < (2:Int) ^ 62 := fun x hx => by
+      obtain ⟨n, hn', rfl⟩ := List.mem_map.mp hx
+      exact spec_coord_bound _ _ _ hch.gran.1 hch.lonOff (hn n hn').2.1
+    have idok : ∀ x : Int, (-(2:Int) ^ 62 < x ∧ x < (2:Int) ^ 62) → IdOk x := fun x hx => by
+      unfold IdOk; simp only [Int.reducePow] at *; omega
+    obtain ⟨hul, edl⟩ := spec_way_packed_delta _
+      (spec_way_deltaRep_of_bound _ 0 (by decide) blat) (fun x hx => idok x (blat x hx))
+    obtain ⟨huo, edo⟩ := spec_way_packed_delta _
+      (spec_way_deltaRep_of_bound _ 0 (by decide) blon) (fun x hx => idok x (blon x hx))
+    have hne : (List.map zigzag64 (PbfSpec.delta 0
+        (ns.map fun n => PbfSpec.coord ch.granularity ch.latOffset n.location.y))).isEmpty = false := by
+      cases ns with
+      | nil => simp at hn0
+      | cons a l => simp [PbfSpec.delta]
+    simp only [↓reduceIte, bind, Option.bind, hur, hul, huo, hne, Bool.false_eq_true, edr, edl, edo,
+      pure, mkMeta, infoOf]
+    rw [htags _ rfl rfl]
+    simp only [zip3With_map, specParams]
+    have hl : List.map (fun n : NodeRef => ({ ref := n.ref, location :=
+        { x := convCoord ch.granularity ch.lonOffset (PbfSpec.coord ch.granularity ch.lonOffset n.location.x),
+          y := convCoord ch.granularity ch.latOffset (PbfSpec.coord ch.granularity ch.latOffset n.location.y) } } : NodeRef))
+        ns = ns := by
+      conv => rhs; rw [← List.map_id ns]
+      apply List.map_congr_left
+      intro n hn'
+      obtain ⟨hlo, hrx, hry⟩ := hrepl n hn'
+      rw [spec_convCoord_coord _ _ _ hch.gran.1 hch.lonOff hlo.1 hrx,
+        spec_convCoord_coord _ _ _ hch.gran.1 hch.latOff hlo.2 hry]
+      rfl
+    rw [hl]
 
 end Osmium.Pbf
